@@ -39,7 +39,15 @@ def get_hash_by_name(name):
 
     # general hash support
     if name in hashlib.algorithms_available:
-        return hashlib.new(name)
+        try:
+            h = hashlib.new(name)
+        except ValueError:
+            # listed but disabled in this build
+            raise UnsupportedHash(name)
+        # extendable-output functions (SHAKE) have no digest of their
+        # own length, hexdigest() cannot be called on them as is
+        if h.digest_size != 0:
+            return h
 
     raise UnsupportedHash(name)
 
